@@ -157,11 +157,12 @@ theorem dfrs_sub_relSet (relOf : Nat → List Mutex) (c : Cmd) : ∀ m, m ∈ df
   | _ => intro x hx; simp [dfrs] at hx
 
 theorem run_keeps {env : Nat → Option Cmd} {relOf : Nat → List Mutex} (hrel : RelOk env relOf)
-    {c : Cmd} {h h' : LS} {obs : List (Nat × LS)} {t : Out} (hrun : Run env c h obs h' t) :
+    {c : Cmd} {h h' : LS} {obs : List LEv} {t : Out} (hrun : Run env c h obs h' t) :
     ∀ x, x ∈ h → x.m ∉ relSet relOf c → x ∈ h' := by
   induction hrun with
   | skip => intro x hx _; exact hx
   | acq => intro x hx _; exact List.mem_cons_of_mem _ hx
+  | asm => intro x hx _; exact List.mem_cons_of_mem _ hx
   | @rel m h =>
     intro x hx hn
     refine List.mem_filter.2 ⟨hx, ?_⟩
@@ -197,8 +198,8 @@ theorem run_keeps {env : Nat → Option Cmd} {relOf : Nat → List Mutex} (hrel 
     have hn' : x.m ∉ relSet relOf a := by simpa [relSet] using hn
     exact ih₂ x (ih₁ x hx hn') hn
   | loopX _ _ ih => intro x hx hn; exact ih x hx (by simpa [relSet] using hn)
-  | spawn _ _ => intro x hx _; exact hx
-  | icall _ _ _ => intro x hx _; exact hx
+  | spawn => intro x hx _; exact hx
+  | icall _ _ hkeep _ => intro x hx _; exact hkeep x hx
   | @call f body h o h₁ t hb _ ih =>
     intro x hx hn
     have hn' : x.m ∉ relOf f := by simpa [relSet] using hn
@@ -245,20 +246,21 @@ theorem callsOk_right {entry : Nat → LS} {a b : List (Nat × LS)} (h : CallsOk
     really held at that moment, and the resulting lockset under-approximates the locks held afterwards. -/
 theorem an_sound {env : Nat → Option Cmd} {relOf : Nat → List Mutex} {entry : Nat → LS}
     (hrel : RelOk env relOf) (hent : EntryOk env relOf entry)
-    {c : Cmd} {h h' : LS} {obs : List (Nat × LS)} {t : Out} (hrun : Run env c h obs h' t) :
+    {c : Cmd} {h h' : LS} {obs : List LEv} {t : Out} (hrun : Run env c h obs h' t) :
     ∀ L, Sub L h → CallsOk entry (an relOf c L).calls →
-      (∀ k hk, (k, hk) ∈ obs → Just env relOf entry (an relOf c L).rows k hk) ∧ OutOk t (an relOf c L) h' := by
+      (∀ k hk, LEv.acc k hk ∈ obs → Just env relOf entry (an relOf c L).rows k hk) ∧ OutOk t (an relOf c L) h' := by
   induction hrun with
   | skip => intro L hs _; exact ⟨(fun _ _ hm => absurd hm List.not_mem_nil), ⟨L, by simp [an], hs⟩⟩
-  | @acq x h => intro L hs _; exact ⟨(fun _ _ hm => absurd hm List.not_mem_nil), ⟨x :: L, by simp [an], sub_cons x hs⟩⟩
-  | @rel m h => intro L hs _; exact ⟨(fun _ _ hm => absurd hm List.not_mem_nil), ⟨dropM m L, by simp [an], sub_dropM m hs⟩⟩
+  | @acq x h => intro L hs _; exact ⟨(fun _ _ hm => by simp at hm), ⟨x :: L, by simp [an], sub_cons x hs⟩⟩
+  | @asm x h => intro L hs _; exact ⟨(fun _ _ hm => by simp at hm), ⟨x :: L, by simp [an], sub_cons x hs⟩⟩
+  | @rel m h => intro L hs _; exact ⟨(fun _ _ hm => by simp at hm), ⟨dropM m L, by simp [an], sub_dropM m hs⟩⟩
   | dfr => intro L hs _; exact ⟨(fun _ _ hm => absurd hm List.not_mem_nil), ⟨L, by simp [an], hs⟩⟩
   | @acc k h =>
     intro L hs _
     refine ⟨?_, ⟨L, by simp [an], hs⟩⟩
     intro k' hk' hm
-    have : (k', hk') = (k, h) := by simpa using hm
-    cases this
+    have : k' = k ∧ hk' = h := by simpa using hm
+    obtain ⟨rfl, rfl⟩ := this
     exact ⟨L, Or.inl (by simp [an]), hs⟩
   | ret => intro L _ _; exact ⟨(fun _ _ hm => absurd hm List.not_mem_nil), trivial⟩
   | @jump n h =>
@@ -392,30 +394,36 @@ theorem an_sound {env : Nat → Option Cmd} {relOf : Nat → List Mutex} {entry 
     | normal => exact absurd rfl hne
     | returned => trivial
     | exit n => obtain ⟨L₂, e, s₂⟩ := ho; exact ⟨L₂, by simpa [an] using e, s₂⟩
-  | @spawn a h o h' t _ ih =>
-    intro L hs hc
-    have hcb : CallsOk entry (an relOf a []).calls := by simpa [an] using hc
-    obtain ⟨hj, _⟩ := ih [] (sub_nil _) hcb
-    exact ⟨fun k hk hm => just_mono (fun x hx => by simpa [an] using hx) (hj k hk hm), ⟨L, by simp [an], hs⟩⟩
-  | @icall f body h o h₁ t hb hr ih =>
+  | @spawn a h =>
+    intro L hs _
+    exact ⟨(fun _ _ hm => absurd hm List.not_mem_nil), ⟨L, by simp [an], hs⟩⟩
+  | @icall f body h o h₁ t hb hr hkeep ih =>
     intro L hs hc
     have hef : Sub (entry f) L := hc f L (by simp [an])
     obtain ⟨hj, _⟩ := ih (entry f) (Sub.trans hef hs) (hent f body hb)
     constructor
     · intro k hk hm
-      obtain ⟨L', hL', hs'⟩ := hj k hk hm
+      have hm' : LEv.acc k hk ∈ o := by
+        rcases List.mem_append.1 hm with hm | hm
+        · exact hm
+        · simp at hm
+      obtain ⟨L', hL', hs'⟩ := hj k hk hm'
       refine ⟨L', Or.inr ?_, hs'⟩
       rcases hL' with hrow | hall
       · exact ⟨f, body, hb, hrow⟩
       · exact hall
-    · exact ⟨L, by simp [an], hs⟩
+    · exact ⟨L, by simp [an], fun x hx => hkeep x (hs x hx)⟩
   | @call f body h o h₁ t hb hr ih =>
     intro L hs hc
     have hef : Sub (entry f) L := hc f L (by simp [an])
     obtain ⟨hj, _⟩ := ih (entry f) (Sub.trans hef hs) (hent f body hb)
     constructor
     · intro k hk hm
-      obtain ⟨L', hL', hs'⟩ := hj k hk hm
+      have hm' : LEv.acc k hk ∈ o := by
+        rcases List.mem_append.1 hm with hm | hm
+        · exact hm
+        · simp at hm
+      obtain ⟨L', hL', hs'⟩ := hj k hk hm'
       refine ⟨L', Or.inr ?_, hs'⟩
       rcases hL' with hrow | hall
       · exact ⟨f, body, hb, hrow⟩
@@ -476,9 +484,9 @@ theorem inAll_allRows {fs : List (Nat × Cmd)} {rel : Trie (List Mutex)} {entry 
     covered by a row of `allRows` whose lockset is held at that moment. -/
 theorem prog_sound {fs : List (Nat × Cmd)} {rel : Trie (List Mutex)} {entry : Trie LS}
     (hrel : relOkB fs rel = true) (hent : entryOkB fs rel entry = true)
-    {g : Nat} {body : Cmd} (hb : envOf fs g = some body) {h h' : LS} {obs : List (Nat × LS)} {t : Out}
+    {g : Nat} {body : Cmd} (hb : envOf fs g = some body) {h h' : LS} {obs : List LEv} {t : Out}
     (hs : Sub (getLS entry g) h) (hrun : Run (envOf fs) body h obs h' t) :
-    ∀ k hk, (k, hk) ∈ obs → ∃ L, (k, L) ∈ allRows fs rel entry ∧ Sub L hk := by
+    ∀ k hk, LEv.acc k hk ∈ obs → ∃ L, (k, L) ∈ allRows fs rel entry ∧ Sub L hk := by
   intro k hk hm
   have hE := entryOk_of_B hent
   obtain ⟨hj, _⟩ := an_sound (relOk_of_B hrel) hE hrun (getLS entry g) hs (hE g body hb)
